@@ -38,3 +38,25 @@ SPAN_CONTEXTS = ["(@ 1)\n", "[a, @ b]\n", "r = (@ if c)\n", "f(@ for x in y, 1)\
 
 def spanning_errors():
     return [c.replace("@", e) for c in SPAN_CONTEXTS for e in SPAN_EXPRS]
+
+
+# valid Python: a multi-line construct as the LAST statement of an indented block, followed by a dedent - the tokenizer must come back to
+# statement mode (INDENT/DEDENT processing) whatever mode the construct ended in
+BS = chr(92)
+BLOCK_CONSTRUCTS = [
+    "f" + D3 + "{x + " + BS + "\n y}" + D3, "f'{x + " + BS + "\n y}'", "s = " + Q3 + "a\nb" + Q3, "t = f" + D3 + "a\n{b}\n" + D3, "u = (1,\n2)", "v = [1,\n  # c\n]", "w = 1 + " + BS + "\n  2",
+    "w = 1 + " + BS + "\n" + BS + "\n  2", "x = 'a" + BS + "\nb'", "y = f'{a}' " + BS + "\n    f'{b}'", "z = {1:\n2}", "f" + D3 + "{\nx\n}" + D3, "f" + D3 + "{x:>" + BS + "\n3}" + D3, "f" + D3 + "{x!r:\n}" + D3,
+    "g(" + Q3 + "a\n" + Q3 + ")", "rf" + D3 + BS + "\n{x}" + D3, "q = 1  # c " + BS, "pass;" + BS + "\npass",
+]
+
+
+def dedent_after():
+    out = []
+    for c in BLOCK_CONSTRUCTS:
+        out.append("if a:\n    " + c + "\nz\n")
+        out.append("def f():\n    if a:\n        " + c + "\n    z\nw\n")
+        out.append("if a:\n\t" + c + "\nelse:\n\tz\n")
+    return out
+
+
+SPAN_EXPRS += ["a " + BS + "\n" + BS + "\n .b", "(1 " + BS + "\n" + BS + "\n" + BS + "\n)"]
